@@ -330,6 +330,15 @@ func filterRPCErrors(xml *etree.Document, severity string) ([]string, error) {
 	return result, nil
 }
 
+// discardCandidate discards the pending changes of the candidate datastore after the given error occurred.
+func (t *ncTarget) discardCandidate(err error) {
+	err2 := t.driver.Discard()
+	if err2 != nil {
+		// log failed discard
+		log.Errorf("failed with %v while discarding pending changes after error %v", err2, err)
+	}
+}
+
 func (t *ncTarget) setCandidate(source TargetSource) (*sdcpb.SetDataResponse, error) {
 	xtree, err := source.ToXML(true, t.sbiConfig.NetconfOptions.IncludeNS, t.sbiConfig.NetconfOptions.OperationWithNamespace, t.sbiConfig.NetconfOptions.UseOperationRemove)
 	if err != nil {
@@ -359,15 +368,13 @@ func (t *ncTarget) setCandidate(source TargetSource) (*sdcpb.SetDataResponse, er
 			go t.reconnect()
 			return nil, err
 		}
-		err2 := t.driver.Discard()
-		if err2 != nil {
-			// log failed discard
-			log.Errorf("failed with %v while discarding pending changes after error %v", err2, err)
-		}
+		t.discardCandidate(err)
 		return nil, err
 	}
 	rpcWarnings, err := filterRPCErrors(resp.Doc, "warning")
 	if err != nil {
+		// the candidate is edited already, do not leave the changes pending
+		t.discardCandidate(err)
 		return nil, fmt.Errorf("filtering netconf rpc-errors with severity warnings: %w", err)
 	}
 
@@ -378,7 +385,11 @@ func (t *ncTarget) setCandidate(source TargetSource) (*sdcpb.SetDataResponse, er
 		if strings.Contains(err.Error(), "EOF") {
 			t.Close()
 			go t.reconnect()
+			return nil, err
 		}
+		// the commit was refused, the uncommitted changes must not stay in the candidate,
+		// the next transaction would commit them.
+		t.discardCandidate(err)
 		return nil, err
 	}
 	return &sdcpb.SetDataResponse{
